@@ -79,6 +79,22 @@ def gen_cases(rng, tier):
             a = gen_operand(rng, ["hi" if op in ("invert", "is_even", "is_odd") and rng.random() < 0.8 else "h", "p"])
             c = {"kind": "un", "op": op, "a": a}
         cases.append(c)
+        if i % 20 == 13:
+            # integer end points and as many faces as the integer span, but a non-integer face inside
+            lo = rng.randint(-2, 2)
+            span = rng.randint(2, 4)
+            faces = [Fraction(lo + j) for j in range(span + 1)]
+            j = rng.randrange(1, span)
+            faces[j] = faces[j] + rng.choice([Fraction(1, 2), Fraction(-1, 2), Fraction(1, 3)])
+            hh = [[gens.q(f), rng.choice([1, 1, 2, 3])] for f in sorted(set(faces))]
+            other = gen_operand(rng, ["h", "p", "s"]) if rng.random() < 0.5 else {"h": [[gens.q(v), 1] for v in range(1, rng.randint(2, 4) + 1)]}
+            opx = rng.choice(["add", "add", "sub", "mul", "ge"])
+            pair = [{"h": hh}, other]
+            if rng.random() < 0.5 and "s" not in other:
+                pair.reverse()
+            if "s" in pair[0] and opx == "ge":
+                opx = "add"
+            cases.append({"kind": "bin", "op": opx, "l": pair[0], "r": pair[1]})
         if i % 20 == 7:
             # the SAME left object combined in turn with right operands that compare equal (scaled,
             # zero-padded, pooled) and with the base again: results must not depend on earlier calls
